@@ -93,6 +93,15 @@ def judge(sh: Shard, mw, label, suspend, regime, exited):
             if s["facade"] is None:
                 sh.violation("C08:I3:teardown-without-facade", f"facade-teardown delivered while the manager holds no facade (state {s['state']}, task {s['task']})", dict(wbase, trail=tail(i)))
         prev_state = s["state"]
+    # ---- I10: the configured spa does not exist (healthy network): the connect pass ends in the
+    # "spa not found" row - announced once, state ERROR_SPA_NOT_FOUND - and discovery is not re-run for ever
+    if label.endswith(":wrong-id") and samples:
+        n_loc = sum(1 for e in ev if e["event"] == "LOCATING_STARTED")
+        n_nf = sum(1 for e in ev if e["event"] == "SPA_NOT_FOUND")
+        last = samples[-1]["state"]
+        sh.count("wrong_identifier_scenarios")
+        if n_nf != 1 or last != "ERROR_SPA_NOT_FOUND" or n_loc > 3:
+            sh.violation("C08:I10:not-found-row", f"configured spa absent on a healthy network: {n_loc} locate phases, {n_nf} SPA_NOT_FOUND event(s), final state {last} (expected 2 locate phases, one event, ERROR_SPA_NOT_FOUND)", dict(wbase, trail=tail(len(ev) - 1)))
     # ---- I8: the status-sensor text identifies the state: never a bare number, and two different
     # states never share a text (the wording itself is the library's business)
     texts = {}
